@@ -416,7 +416,10 @@ impl FmtArgument {
 impl Parse for FmtArgument {
     fn parse(input: ParseStream) -> syn::Result<Self> {
         Ok(Self {
-            alias: (input.peek(syn::Ident) && input.peek2(token::Eq))
+            alias: (input.peek(syn::Ident)
+                && input.peek2(token::Eq)
+                && !input.peek2(token::EqEq)
+                && !input.peek2(token::FatArrow))
                 .then(|| Ok::<_, syn::Error>((input.parse()?, input.parse()?)))
                 .transpose()?,
             expr: input.parse()?,
